@@ -147,3 +147,39 @@ def run(ctx):
         ctx.oblige(exact, "C20.5", "exact:%s" % a,
                    "(%s, %s) is ordered through %s instead of the exact %s comparison: integers beyond 2^53 that round to the same float compare as equal "
                    "and keep their input order" % (a, a, name.split("::")[-1], want), nb.file)
+
+    # ---- clause 6: each ORDER BY key gets its own direction -------------------------------------------------------------
+    # `ORDER BY a DESC, b` sorts b ascending: a key without ASC / DESC defaults to ascending, per key.  In the parser the direction value that
+    # goes into an OrderByItem must therefore be (re)assigned on every path of the same loop iteration; a direction variable that lives
+    # across iterations and is only overwritten when a keyword is present makes a bare key inherit the previous key's direction.
+    ctx.rule("C20.6", "in parse_order_by the direction stored in an item is assigned on every path of the current loop iteration (no value carried over from the previous sort key)")
+    pb = ctx.body("nervusdb_query::parser::TokenParser::parse_order_by")
+    DIR = "nervusdb_query::ast::Direction"
+    pushes = [c for c in pb.calls() if c.name.endswith("::push") and c.bb in pb.reachable(pb.succs(c.bb))]
+    ctx.floor("C20.6", "item pushes in the ORDER BY loop", len(pushes), 1)
+    for k, p in enumerate(pushes):
+        cyc = pb.reachable(pb.succs(p.bb))
+        # the loop head: the in-cycle block that dominates every other in-cycle block
+        heads = [x for x in cyc if all(pb.dominates(x, y) for y in cyc)]
+        head = heads[0] if heads else None
+        carried = []
+        for l in range(len(pb.locals)):
+            if pb.local_ty(l) != DIR:
+                continue
+            ds = [x for x in pb.defs().get(l, []) if x[2] in ("assign", "call")]
+            us = [u for u in pb.uses().get(l, []) if u[2] != "drop" and u[0] in cyc]
+            if not us or head is None:
+                continue
+            # is there a path from the loop head to a use that passes no definition of l in this iteration?
+            def_blocks = {x[0] for x in ds if x[0] in cyc}
+            for u in us:
+                if u[0] in def_blocks:
+                    continue
+                if head in def_blocks:
+                    continue
+                if u[0] in pb.reachable([head], avoid=def_blocks) or u[0] == head:
+                    carried.append((pb.local_name(l) or "_%d" % l, u[0]))
+        ctx.instance("C20.6", "parse_order_by push #%d: direction values that can reach the item unassigned in this iteration: %s" % (k, carried or "none"))
+        ctx.oblige(not carried, "C20.6", "parse_order_by:direction-carried-over#%d" % k,
+                   "the direction of a sort key can come from the previous loop iteration (%s): a key written without ASC / DESC inherits the previous key's "
+                   "direction, so `ORDER BY a DESC, b` sorts b descending" % carried, pb.file)
